@@ -162,6 +162,26 @@ func checkC06(c *Ctx) {
 	}
 	c.Check(len(others) == 0, "C06.3", "completeCommand callers", p.FuncPos(cc), "completeCommand is called only from Exec and Abort", "also called from "+join(others))
 
+	// C06.3b the client handler answers only with the outcome it received from the execution path
+	if ec := p.Method("server", "ClientIO", "ExecCommand"); ec != nil {
+		fe := NewFlow(p, ec)
+		var bad []string
+		n := 0
+		for _, r := range returnsOf(ec) {
+			if !fe.Reachable(r.Block()) || len(r.Results) < 2 {
+				continue
+			}
+			n++
+			if k := fe.K.Key(retValue(r, 1)); !strings.HasPrefix(k, "<-") {
+				bad = append(bad, p.Pos(r.Pos())+" returns "+shortVal(k))
+			}
+		}
+		c.Check(len(bad) == 0 && n > 0, "C06.3", "ExecCommand: replies with the outcome received from Exec/Abort", p.FuncPos(ec),
+			"every return delivers the value received on the command's own waiting channel", "a reply is produced without waiting for the command's outcome: "+join(bad))
+	} else {
+		c.Unresolved("C06.3", "ClientIO.ExecCommand", "anchor missing")
+	}
+
 	// C06.4 at most one outcome per waiter: sends only in completeCommand, followed by delete of that entry
 	{
 		var sendFns []string
